@@ -2,7 +2,7 @@
 From Coq Require Import List ZArith NArith Bool.
 Import ListNotations.
 From GS Require Import Num EventLoop Kernel Sim NumZ.
-From GS.Proofs Require Import Aux SimP SimP3 SimP4 KernelP TraceSpec TimerSpec.
+From GS.Proofs Require Import Aux SimP SimP3 SimP4 KernelP TraceSpec TimerSpec DeliverOnce.
 
 Section C07.
 Context {F : Type} (A : ArithOps F) {PS : Type} (cfg : scfg F)
@@ -105,6 +105,18 @@ Theorem C07_any_driving_refines_timer_table (c : kcfg F) ops ps0 :
   after (t_next A cfg) t0 (i0 ++ items) = mkT (s_pending (k_h s')) (s_nextid (k_h s')) None.
 Proof. exact (whole_drive_accepted A cfg react c ops ps0). Qed.
 
+(** EXACTLY: the timer callbacks of a whole run are, in order, the executions of exactly those timer events whose
+    (node, name, identifier) is in the replayed table at the moment they run ([fired]: judged on the table as the
+    visible history has made it -- an accepted set-timer put the entry there, an accepted cancel of that node and
+    name or an earlier firing took it out), each on its node, with its name, at the time reported for the event's
+    due time.  With C07_each_event_once (an accepted timer's event is executed exactly once until the run stops):
+    a timer fires exactly once, at its time, unless cancelled before. *)
+Theorem C07_timer_callbacks_exactly (c : kcfg F) fuel ps0 :
+  let '(s0, i0) := sim_start A cfg ps0 in
+  let '(s', items, fin) := k_run A (sim_hooks A cfg react) c fuel s0 in
+  timer_cbs (i0 ++ items) = fired A cfg t0 (i0 ++ items).
+Proof. exact (timer_callbacks_exactly A cfg react c fuel ps0). Qed.
+
 (** ONLY IF: in an accepted trace a timer callback is the very next thing after the execution of
     a timer event of the same node and name whose identifier is in the table at that moment, and
     it reports that event's time. *)
@@ -182,6 +194,7 @@ Print Assumptions C07_each_event_once.
 Print Assumptions C07_identifiers_never_reused.
 Print Assumptions C07_identifiers_never_reused_init.
 Print Assumptions C07_whole_run_refines_timer_table.
+Print Assumptions C07_timer_callbacks_exactly.
 Print Assumptions C07_any_driving_refines_timer_table.
 Print Assumptions C07_timer_callback_only_from_pending_event.
 Print Assumptions C07_pending_timer_event_fires.
